@@ -220,7 +220,9 @@ check('blackbox ok', rules('module m(input a, output r); foo i_f(.a(a), .r(r)); 
 check('unknown port', rules('module m(input a, output r); s i_s(.a(a), .zz(r)); endmodule module s(input a, output r); assign r = a; endmodule'), ['R5', 'R6'])
 check('port width', rules('module m(input [1:0] a, output r); s i_s(.a(a), .r(r)); endmodule module s(input a, output r); assign r = a; endmodule'), ['R5'])
 check('param no default', rules('module m #(parameter n) (input a, output r); assign r = a; endmodule'), ['R7'])
-check('zero replication', rules('module m(input a, output [1:0] r); assign r = { {0{a}}, a }; endmodule'), ['R7'])
+check('zero replication inside a sized concat is legal (2005)', rules('module m(input a, output [1:0] r); assign r = { {0{a}}, a }; endmodule'), [])
+check('zero replication alone', rules('module m(input a, output [1:0] r); assign r = {0{a}}; endmodule'), ['R7'])
+check('negative replication', rules('module m(input a, output [1:0] r); assign r = { {-1{a}}, a }; endmodule'), ['R7'])
 check('module twice', rules('module m(input a, output r); assign r = a; endmodule module m(input a, output r); assign r = a; endmodule'), ['R4'])
 check('clean', rules('module m(input clk, input a, output r); reg x = 0; always @(posedge clk) x <= a; assign r = x; endmodule'), [])
 
